@@ -65,6 +65,14 @@ struct Harness {
     sigma_ids: BTreeMap<String, usize>,
 }
 
+fn disc_of(name: &str) -> SignedEntityTypeDiscriminants {
+    match name {
+        "MSD" => SignedEntityTypeDiscriminants::MithrilStakeDistribution,
+        "CSD" => SignedEntityTypeDiscriminants::CardanoStakeDistribution,
+        _ => SignedEntityTypeDiscriminants::CardanoDatabase,
+    }
+}
+
 fn entity_name(t: &SignedEntityType) -> String {
     let short = match t {
         SignedEntityType::MithrilStakeDistribution(_) => "MSD",
@@ -83,7 +91,11 @@ impl Harness {
         std::fs::create_dir_all(&dir).unwrap();
         let config = ServeCommandConfiguration {
             protocol_parameters: Some(params.clone()),
-            signed_entity_types: Some(SignedEntityTypeDiscriminants::CardanoDatabase.to_string()),
+            signed_entity_types: Some(format!(
+                "{},{}",
+                SignedEntityTypeDiscriminants::CardanoStakeDistribution,
+                SignedEntityTypeDiscriminants::CardanoDatabase
+            )),
             data_stores_directory: dir.join("stores"),
             ..ServeCommandConfiguration::new_sample(dir.join("sample"))
         };
@@ -179,10 +191,7 @@ impl Harness {
                 json!({"ok": r.is_ok(), "err": r.err().map(|e| format!("{e:#}").chars().take(160).collect::<String>()).unwrap_or_default()})
             }
             "Sign" => {
-                let disc = match a["entity"].as_str().unwrap() {
-                    "MSD" => SignedEntityTypeDiscriminants::MithrilStakeDistribution,
-                    _ => SignedEntityTypeDiscriminants::CardanoDatabase,
-                };
+                let disc = disc_of(a["entity"].as_str().unwrap());
                 let who = a["who"].as_u64().unwrap() as usize;
                 let label = a["label"].as_u64().map(|l| l as usize).unwrap_or(who);
                 let variant = a["variant"].as_str().unwrap_or("ok");
@@ -219,14 +228,23 @@ impl Harness {
                        "err": r.err().map(|e| format!("{e:#}").chars().take(160).collect::<String>()).unwrap_or_default()})
             }
             "Expire" => {
-                let disc = match a["entity"].as_str().unwrap() {
-                    "MSD" => SignedEntityTypeDiscriminants::MithrilStakeDistribution,
-                    _ => SignedEntityTypeDiscriminants::CardanoDatabase,
+                let disc = disc_of(a["entity"].as_str().unwrap());
+                // an expiry date in the past, written straight into the open_message row of the current beacon of
+                // that type (the repository helper cannot address a CardanoStakeDistribution row): the next tick
+                // marks the open message expired
+                let Ok(set) = self.tester.observer.build_current_signed_entity_type(disc).await else {
+                    return json!({"ok": false});
                 };
-                // an expiry date in the past: the next tick marks the open message expired
-                let r = self.tester.activate_open_message_expiration(disc, std::time::Duration::from_millis(0)).await;
-                tokio::time::sleep(std::time::Duration::from_millis(2)).await;
-                json!({"ok": r.is_ok()})
+                let conn = sqlite::open(&self.db_path).unwrap();
+                let past = (chrono::Utc::now() - chrono::Duration::seconds(5)).to_rfc3339();
+                let sql = format!(
+                    "update open_message set expires_at = '{}' where signed_entity_type_id = {} and beacon = '{}' and is_certified = 0",
+                    past,
+                    set.index(),
+                    set.get_json_beacon().unwrap_or_default().replace('\'', "")
+                );
+                let ok = conn.execute(sql).is_ok() && conn.change_count() > 0;
+                json!({"ok": ok})
             }
             "Crash" => {
                 // a process stop at a named persistence point: the hooked function returns an error there,
@@ -253,7 +271,7 @@ impl Harness {
                 // name the interrupted entity the way the projection does
                 let mut entity = String::new();
                 if let Some(display) = &hit {
-                    for disc in [SignedEntityTypeDiscriminants::MithrilStakeDistribution, SignedEntityTypeDiscriminants::CardanoDatabase] {
+                    for disc in [SignedEntityTypeDiscriminants::MithrilStakeDistribution, SignedEntityTypeDiscriminants::CardanoStakeDistribution, SignedEntityTypeDiscriminants::CardanoDatabase] {
                         if let Ok(t) = self.tester.observer.build_current_signed_entity_type(disc).await {
                             if t.to_string() == *display {
                                 entity = entity_name(&t);
@@ -325,20 +343,23 @@ impl Harness {
         }
         // --- open messages
         let mut open = vec![];
-        let oms: Vec<(String, i64, String, i64, i64, i64)> = conn
-            .prepare("select open_message_id, cast(signed_entity_type_id as integer), cast(beacon as text), cast(is_certified as integer), cast(is_expired as integer), cast(epoch_setting_id as integer) from open_message order by rowid")
+        let oms: Vec<(String, i64, String, i64, i64, i64, String)> = conn
+            .prepare("select open_message_id, cast(signed_entity_type_id as integer), cast(beacon as text), cast(is_certified as integer), cast(is_expired as integer), cast(epoch_setting_id as integer), coalesce(cast(expires_at as text), '') from open_message order by rowid")
             .unwrap()
             .into_iter()
             .map(|r| {
                 let r = r.unwrap();
-                (r.read::<&str, _>(0).to_string(), r.read::<i64, _>(1), r.read::<&str, _>(2).to_string(), r.read::<i64, _>(3), r.read::<i64, _>(4), r.read::<i64, _>(5))
+                (r.read::<&str, _>(0).to_string(), r.read::<i64, _>(1), r.read::<&str, _>(2).to_string(), r.read::<i64, _>(3), r.read::<i64, _>(4), r.read::<i64, _>(5), r.read::<&str, _>(6).to_string())
             })
             .collect();
         let mut om_entity: BTreeMap<String, (String, i64)> = BTreeMap::new();
-        for (id, type_id, beacon, certified, expired, epoch) in &oms {
+        let now = chrono::Utc::now();
+        for (id, type_id, beacon, certified, expired, epoch, expires_at) in &oms {
             let name = format!("{}:{}", type_name(*type_id), beacon.replace('"', ""));
             om_entity.insert(id.clone(), (name.clone(), *epoch));
-            open.push(json!({"entity": name, "certified": *certified != 0, "expired": *expired != 0, "epoch": epoch}));
+            // the ground truth the `is_expired` flag stands for: the expiry date of the row has passed
+            let past_expiry = chrono::DateTime::parse_from_rfc3339(expires_at).map(|t| t < now).unwrap_or(false);
+            open.push(json!({"entity": name, "certified": *certified != 0, "expired": *expired != 0, "past_expiry": past_expiry, "epoch": epoch}));
         }
         // --- single signatures: under which label, and whose registered key really produced them
         let mut sigs = vec![];
@@ -422,7 +443,8 @@ fn random_schedule(r: &mut ChaCha20Rng, len: usize) -> Vec<Value> {
                 let who = below(r, NSIGNERS as u64);
                 let label = if below(r, 6) == 0 { below(r, NSIGNERS as u64) } else { who };
                 let variant = if below(r, 8) == 0 { "bad" } else { "ok" };
-                json!({"a":"Sign","entity": if below(r, 2) == 0 {"MSD"} else {"CDB"}, "who": who, "label": label, "variant": variant,
+                let ent = ["MSD", "CSD", "CDB"][below(r, 3) as usize];
+                json!({"a":"Sign","entity": ent, "who": who, "label": label, "variant": variant,
                        "auth": below(r, 3) != 0})
             }
             12 | 13 => json!({"a":"ImmUp"}),
@@ -434,7 +456,10 @@ fn random_schedule(r: &mut ChaCha20Rng, len: usize) -> Vec<Value> {
                 }
                 json!({"a":"Register","who": who})
             }
-            17 => json!({"a":"Expire","entity": if below(r, 2) == 0 {"MSD"} else {"CDB"}}),
+            17 => {
+                let ent = ["MSD", "CSD", "CDB"][below(r, 3) as usize];
+                json!({"a":"Expire","entity": ent})
+            }
             _ => json!({"a":"Restart"}),
         };
         out.push(a);
@@ -486,7 +511,7 @@ fn main() {
                     let n0 = before["certs"].as_array().unwrap().len();
                     let mut script = vec![json!({"a":"Restart"}), json!({"a":"Tick"}), json!({"a":"Tick"}), json!({"a":"Tick"}), json!({"a":"ImmUp"}), json!({"a":"Tick"}), json!({"a":"Tick"})];
                     for _round in 0..3 {
-                        for ent in ["MSD", "CDB"] {
+                        for ent in ["MSD", "CSD", "CDB"] {
                             for w in &signers {
                                 script.push(json!({"a":"Sign","entity":ent,"who":w,"label":w,"variant":"ok"}));
                             }
